@@ -144,7 +144,7 @@ func H_C10_resend() {
 // H_C10_long: a long history with concrete contents (one symbolic byte per message), optionally
 // starting with a message the session sent before the logon (the Reject of a pre-logon Heartbeat,
 // which takes number 1): the ResendRequest b..e (e = 0: through the last) is answered with exactly
-// the first transmissions b..e. params: [role, n (application sends), b, e, prelogon]
+// the first transmissions b..e. params: [role, n (application sends), b, e, prelogon, relogon under other ids]
 func H_C10_long() {
 	role, n, b, e := zz.Param(0), zz.Param(1), zz.Param(2), zz.Param(3)
 	zz.Class("long/n=" + strconv.Itoa(n) + "/b=" + strconv.Itoa(b) + "/e=" + strconv.Itoa(e) + "/pre=" + strconv.Itoa(zz.Param(4)))
@@ -175,6 +175,22 @@ func H_C10_long() {
 	for i := 0; i < n; i++ {
 		zz.Assert(f.s.Send(fixgen.CreateTestRequest(string([]byte{x, byte('0' + i%10)}))) == nil, "fixture: Send failed")
 		w = append(w, f.h.VerifOut()...)
+	}
+	if zz.Param(5) == 1 && role == 0 {
+		// logout exchange and a second logon on the same connection, under another SenderCompID
+		// (the acceptor mirrors the ids of each Logon), then two more sends
+		lo := fixgen.CreateLogout()
+		setHdr(lo.Header(), peer, me, inSeq)
+		inSeq++
+		w = append(w, f.serve(wire(lo))...)
+		peer = "CL2"
+		w = append(w, f.logon(peer, me, inSeq, 30)...)
+		inSeq++
+		zz.Assume(f.s.IsLogged())
+		for i := 0; i < 2; i++ {
+			zz.Assert(f.s.Send(fixgen.CreateHeartbeat()) == nil, "fixture: Send failed")
+			w = append(w, f.h.VerifOut()...)
+		}
 	}
 	last := len(w)
 	for i := range w {
